@@ -121,6 +121,8 @@ class EngineBase:
                     ax.append(z3.ForAll([c], z3.Not(z3.And(subclass(c, cls_const(a)), subclass(c, cls_const(b)))),
                                         patterns=[z3.MultiPattern(subclass(c, cls_const(a)), subclass(c, cls_const(b)))]))
         ax.append(cls_of(NULL) == cls_const("NoneType"))
+        xx = z3.Const("x!cls", RefS)
+        ax.append(z3.ForAll([xx], cls_of(xx) != NULL, patterns=[cls_of(xx)]))
         # assumption (listed in evidence): nobody derives a class from both the kernel's Interrupt and GeneratorExit
         if "Interrupt" in _cls_consts and "GeneratorExit" in _cls_consts:
             ax.append(z3.ForAll([c], z3.Not(z3.And(subclass(c, cls_const("Interrupt")), subclass(c, cls_const("GeneratorExit")))),
